@@ -393,17 +393,8 @@ pub fn all_layer_cases() -> Vec<LayerCase> {
 }
 
 pub fn run_layers(args: &Args) -> Report {
-    let mut cases = all_layer_cases();
-    if !args.tier_thorough {
-        // quick: a deterministic 1/8 slice chosen by the seed + all "edge" combos
-        let k = args.seed % 8;
-        cases = cases
-            .into_iter()
-            .enumerate()
-            .filter(|(i, c)| (*i as u64) % 8 == k || c.method == "CONNECT" && c.path == "/a/b/c" || c.preset == "host2" && c.path.is_empty())
-            .map(|(_, c)| c)
-            .collect();
-    }
+    // the whole grammar takes a few seconds on 16 cores: both tiers enumerate it completely
+    let cases = all_layer_cases();
     let chunk = 4096u64;
     let jobs = (cases.len() as u64 + chunk - 1) / chunk;
     let mut r = crate::report::parallel(args.threads, jobs, "layers", |j, rep| {
@@ -415,7 +406,7 @@ pub fn run_layers(args: &Args) -> Report {
         }
     });
     let p = r.prop("C13", RULE13);
-    p.exhaustive = Some(args.tier_thorough);
+    p.exhaustive = Some(true);
     p.assume("layer part judges absolute URIs only (scheme + authority present); relative targets cannot come out of the pooled client");
     p.assume("for schemes other than http/https/ws/wss no default port is defined: Host must name the host, and a port other than 80/443 must be kept");
     r
